@@ -75,11 +75,11 @@ def main(chk: core.Check, replay):
     if replay:
         return replay_one(chk, replay)
     if chk.tier == "quick":
-        run_expr_corpus(chk, "C01", "numpy", exprcorpus.QUICK_LEVELS, cap=3000)
+        run_expr_corpus(chk, "C01", "numpy", exprcorpus.QUICK_LEVELS, cap=3000, styles=("tmin", "tfull", "tmin-compact"))
         run_tokens(chk, "C01", 5, 1)
         run_tokens(chk, "C01", 4, 2)
     else:
-        run_expr_corpus(chk, "C01", "numpy", exprcorpus.THOROUGH_LEVELS, cap=10 ** 9)
+        run_expr_corpus(chk, "C01", "numpy", exprcorpus.THOROUGH_LEVELS, cap=10 ** 9, styles=("tmin", "tfull", "tmin-compact"))
         run_tokens(chk, "C01", 5, 1)
         run_tokens(chk, "C01", 5, 2)
     from . import structural, tracesleg
